@@ -233,7 +233,10 @@ def resolved_sources(ctx):
                ('/srv/www/dist/bundle.js', '/srv/www/dist/maps/bundle.js.map', ['/srv/www/lib/alpha.js', '/srv/www/dist/x/beta.js']),
                ('/srv/www/dist/js/bundle.js', '/srv/www/bundle.js.map', ['/srv/www/dist/js/alpha.js', '/srv/lib/beta.js']),
                ('/srv/out/a/b/c/bundle.js', '/srv/maps/bundle.js.map', ['/srv/maps/alpha.js', '/srv/out/a/beta.js']),
-               ('/bundle.js', '/m/bundle.js.map', ['/alpha.js', '/m/n/beta.js'])]
+               ('/bundle.js', '/m/bundle.js.map', ['/alpha.js', '/m/n/beta.js']),
+               # names that are not in a Unicode normal form (what a file system may hand out) / not ASCII
+               ('/srv/www/dist/bundle.js', '/srv/www/dist/bundle.js.map', ['/srv/www/src/cafe\u0301.js', '/srv/www/src/\u1112\u1161\u11ab.js']),
+               ('/srv/www/di\u0308st/bundle.js', '/srv/www/maps/bundle.js.map', ['/srv/www/src/A\u030a.js', '/srv/www/src/\u212b.js'])]
     for k, (out_name, map_name, srcs) in enumerate(layouts):
         if k % ctx.nshards != ctx.shard:
             continue
@@ -242,7 +245,7 @@ def resolved_sources(ctx):
                 frags = []
                 pr = make()
                 for j, src in enumerate(srcs):
-                    tree, err = work.run_impl('var v%d = function (arg) { return arg + %d; };' % (j, j))
+                    tree, err = work.run_impl('var v%d = function (arg, nai\u0308ve, \u212bngstrom) { return arg + %d + nai\u0308ve + \u212bngstrom; };' % (j, j))
                     tree.sourcepath = src
                     frags.extend(tuple(f) for f in pr(tree))
                 out, mp = _Named(out_name), _Named(map_name)
@@ -255,6 +258,11 @@ def resolved_sources(ctx):
                 wanted = [posixpath.normpath(x) for x in sources]
                 afile = posixpath.normpath(posixpath.join(base, got['file']))
                 ctx.case(('resolved', out_name, map_name, normalize), True)
+                if got.get('names') != list(names):
+                    ctx.violation('C09:written_names_differ',
+                                  {'fragments': [], 'normalize': normalize, 'layout': [out_name, map_name, srcs]},
+                                  'the map written for %s lists names %r, the fragments recorded %r' % (
+                                      out_name, got.get('names'), list(names)))
                 if arrived != wanted or afile != out_name:
                     ctx.violation('C09:source_resolves_to_other_file',
                                   {'fragments': [], 'normalize': normalize, 'layout': [out_name, map_name, srcs]},
